@@ -416,6 +416,15 @@ theorem C17_T_both_entry_points_validate :
     (∃ w ∈ Gen.urlWrites, w.role = 4 ∧ w.prov = 8 ∧ w.validated = true) := by
   decide +kernel
 
+/-- The configured safe patterns are stored exactly as configured: the only
+store into `DNSFilter.safeFSPatterns` in the module is the append, in
+`filtering.New`, of each element of `Config.SafeFSPatterns` after
+`filepath.Match` accepted it — no default, nothing added.  (So "no patterns
+configured" really is the empty list of `C17_empty_patterns`.) -/
+theorem C17_T_patterns_exactly_configured :
+    Gen.patternWrites.length = 1 ∧ ∀ w ∈ Gen.patternWrites, w.kind = 1 := by
+  decide +kernel
+
 /-! ### Observations about the unchanged code (not violations of C17: a crash
 or a refusal reads nothing) -/
 
